@@ -23,8 +23,9 @@ static inline bool qstr_contains(qstr a, qstr b) { if (a == b || b == 0) return 
 
 bool __CPROVER_uninterpreted_str_endsWith(qstr a, qstr b);
 static inline bool qstr_endsWith(qstr a, qstr b) { if (a == b || b == 0) return true; if (a == 0) return false; return __CPROVER_uninterpreted_str_endsWith(a, b); }
-/* JID helpers (QXmppUtils): uninterpreted, with  bare("") = "", bare(bare(x)) = bare(x), resource(bare(x)) = "",
-   a bare JID with an empty resource part is its own bare form */
+/* JID helpers (QXmppUtils): uninterpreted, with only axioms that hold for the real functions on EVERY string:
+   f("") = "";  bare(x) contains no '/', hence bare(bare(x)) = bare(x) and resource(bare(x)) = "".
+   (NOT assumed: bare(x) != "" -- jidToBareJid("/r") is ""; nor resource(x) == "" <=> bare(x) == x -- "a@b/" has an empty resource.) */
 qstr __CPROVER_uninterpreted_jid_bare(qstr j);
 qstr __CPROVER_uninterpreted_jid_resource(qstr j);
 qstr __CPROVER_uninterpreted_jid_domain(qstr j);
@@ -32,9 +33,8 @@ qstr __CPROVER_uninterpreted_jid_user(qstr j);
 qstr __CPROVER_uninterpreted_str_lower(qstr j);
 qstr __CPROVER_uninterpreted_str_trimmed(qstr j);
 static inline qstr qstr_jidToBareJid(qstr j) { if (j == 0) return 0; qstr b = __CPROVER_uninterpreted_jid_bare(j);
-  __CPROVER_assume(b != 0 && __CPROVER_uninterpreted_jid_bare(b) == b && __CPROVER_uninterpreted_jid_resource(b) == 0); return b; }
-static inline qstr qstr_jidToResource(qstr j) { if (j == 0) return 0; qstr r = __CPROVER_uninterpreted_jid_resource(j);
-  __CPROVER_assume((r == 0) == (__CPROVER_uninterpreted_jid_bare(j) == j)); return r; }
+  __CPROVER_assume(b == 0 || (__CPROVER_uninterpreted_jid_bare(b) == b && __CPROVER_uninterpreted_jid_resource(b) == 0)); return b; }
+static inline qstr qstr_jidToResource(qstr j) { if (j == 0) return 0; return __CPROVER_uninterpreted_jid_resource(j); }
 static inline qstr qstr_jidToDomain(qstr j) { if (j == 0) return 0; return __CPROVER_uninterpreted_jid_domain(j); }
 static inline qstr qstr_jidToUser(qstr j) { if (j == 0) return 0; return __CPROVER_uninterpreted_jid_user(j); }
 static inline qstr qstr_toLower(qstr j) { if (j == 0) return 0; qstr r = __CPROVER_uninterpreted_str_lower(j); __CPROVER_assume(r != 0 && __CPROVER_uninterpreted_str_lower(r) == r); return r; }
